@@ -73,3 +73,9 @@ def IsJson(x):
             return len(a) == len(b) and all(teq(i, j) for i, j in zip(a, b))
         return a == b
     return teq(x, y)
+
+
+def SemAt(cond, data, j, source_data=None):
+    """What condition `cond` gives for item j of the Data object `data` (natively: by filtering)."""
+    return cond._filter(data, False, source_data=source_data).result[j]
+
